@@ -2,6 +2,9 @@
 
 A  TLC exhaustive on spec/Classify (scaled thresholds): FoundWhenComplete, NeverDropsMatching, ConsumeExact, MarkedUsed,
    Recognised (liveness) over every segmentation of every flight kind; broken instance must violate.
+B  every history of one phantom's table that TLC enumerates from Gen_Classify (connections of the registered client R, of another client, of
+   a prober; Validate / SweepIdle / Retrack between them; the sweeper race) replayed into the real RegistrationManager + handler and compared
+   step by step with what TLC computed (table entry of R, matched, marked used); each history's log validated as one trace.
 C  real runs: genuine first flights produced by the real client transports (min, every prefix id x flush policy, obfs4
    live behind a segmenting shim) + early/late application data are delivered under EVERY 1-cut and (thorough) every
    2-cut segmentation plus seeded random k-cut segmentations with pauses into the real handleNewTCPConn with other
@@ -127,17 +130,21 @@ def run(ctx):
     ctx.log("C: %d traces, %d accepted, %d rejected; %d connections matched" % (summary["traces"], summary["accepted"], summary["rejected"], matched))
     if summary["rejected"] == 0:
         ctx.stage("C", corrupted_trace_rejected_at=cc.binding_demo(ctx, results[:50], summary["sdir"]))
-    ctx.cov["traces_validated_against_impl"] = summary["accepted"]
-    classes = set()
+    # ---- B + C over table HISTORIES: a registered client is found whatever the table and the phantom's other connections did before -
+    # connections arriving between the registration's Track and its validation, expiry and re-registration, the sweeper race - every
+    # history TLC enumerates from Gen_Classify, replayed step by step
+    hsum = cc.histories_stage(ctx, "C04", "c04")
+    ctx.cov["traces_validated_against_impl"] = summary["accepted"] + hsum["accepted"]
+    classes = set(hsum["distinct"])
     for (_, cs, r) in results:
         st = cs["stream"]
         H = r["final"].get("flight_len", 0)
         rel = tuple(("pre" if c < st.get("client_px", 0) * 0 + (H - 64 if H > 64 else 0) else ("tag" if c < H else "data")) for c in cs["cuts"])
         classes.add((st["from"], st["client_px"], st["flush"], tuple(cs["cuts"]) if H < 200 else rel, min(st["early"], 1), min(st["late"], 1)))
-    ctx.cov["evaluations"] = len(cases)
+    ctx.cov["evaluations"] = len(cases) + hsum["connections"]
     ctx.cov["distinct_nontrivial"] = len(classes)
     ctx.cov["rule"] = ("one case = (registration/transport/prefix id/flush policy, cut positions, early/late data class); all carry a genuine "
-                       "flight and >= 1 cut or data, so all are non-trivial; distinct by that tuple")
+                       "flight and >= 1 cut or data, so all are non-trivial; distinct by that tuple; plus one per distinct table history replayed")
     ctx.sample({"case": cases[5], "events": [(e["a"], e.get("n", e.get("k", e.get("r")))) for e in results[5][2]["ev"]][:30]})
     ctx.stage("C", connections=len(cases), matched=matched, **{k: v for k, v in summary.items() if k != "sdir"})
     ctx.assumptions += ["segmentation is emulated by a scripted in-memory connection that returns one segment per Read",
